@@ -38,7 +38,10 @@ package main
 //     syntactically an index expression;
 //   - `&$X`: an address depends on the storage location by definition;
 //   - the VALUE of `$X++` / `$X op= e` / `$X = e`: only the effect is compared
-//     (follow-up read of the hole), and only for assignable holes;
+//     (follow-up read of the hole), and only for assignable holes (the templates
+//     add-assign-value / inc-value / add-assign-str-value compare the value of `$X op= e` /
+//     `$X++` too; generated once c20PendingFix_storeExprValue is false). A parenthesised place
+//     counts as assignable once c20PendingFix_parenTarget is false;
 //   - element stores into a string and appending stores (`$X[len] = e`): the
 //     container is rebuilt and re-bound, so the hole must be assignable;
 //   - field stores into struct VALUES (a struct inside interface{} is a
@@ -60,6 +63,11 @@ package main
 // still be the same value of the same dynamic type (phase typed: every typed
 // location x every binding hop), and must be a VALUE (the live-* templates: it
 // does not follow a later store into the location).
+//
+// Arguments are values (templates param-*): a script callee that stores into a field /
+// element of its parameter changes the caller's operand, or does not, in the same way for
+// every argument expression and every call path. Concurrent evaluations of one call site
+// whose callee is given by an expression: c20_concur.go.
 //
 // c20PendingFix_* constants: input classes on which the unchanged tree violates the
 // statement (C20-genuine.md); they are generated only when the constant is false.
@@ -338,6 +346,13 @@ func c20NewState() *c20State {
 	e.Define("gtemp", func(t c20Temp) float64 { return t.Kelvin() })
 	e.Define("gflag", func(f c20Flag) string { return f.Word() })
 	e.Define("gshow", func(x interface{}) string { return fmt.Sprintf("%T|%v", x, x) })
+	e.Define("gcbr1", func(f func() interface{}) string { return ank.Render(f()) })
+	e.Define("gcbr3", func(f func() (int64, int64, int64)) int64 { a, b, c := f(); return a*100 + b*10 + c })
+	e.Define("gcbri2", func(f func() (interface{}, interface{})) string {
+		a, b := f()
+		return ank.Render([]interface{}{a, b})
+	})
+	e.Define("gcb1", func(f func(interface{}) interface{}, x interface{}) interface{} { return f(x) })
 	e.Define("gset", func(p *int64) {
 		if p != nil {
 			*p = 77
@@ -377,7 +392,8 @@ func c20Go(kind string, f func() interface{}) c20Val {
 
 func c20Script(kind, body string) c20Val {
 	return c20Val{kind: kind, mk: func(st *c20State, name string) {
-		ank.Exec(st.env, name+" = "+body)
+		// $N in the body is the operand's name: a function operand reports WHICH function ran
+		ank.Exec(st.env, name+" = "+strings.ReplaceAll(body, "$N", name))
 		x, _ := st.env.Get(name)
 		st.base[name] = x
 	}}
@@ -412,8 +428,8 @@ func c20MakeVals() []c20Val {
 		c20Go("ptrint", func() interface{} { p := new(int64); *p = 1; return p }),
 		c20Go("chan", func() interface{} { c := make(chan interface{}, 4); c <- int64(11); return c }),
 		c20Go("chanc", func() interface{} { c := make(chan interface{}, 4); c <- int64(11); c <- int64(12); close(c); return c }),
-		c20Script("sfunc", `func(a){ glog("sfunc", a); return a + 1 }`),
-		c20Script("sfuncv", `func(a...){ glog("sfuncv", a); return a }`),
+		c20Script("sfunc", `func(a){ glog("sfunc $N", a); return a + 1 }`),
+		c20Script("sfuncv", `func(a...){ glog("sfuncv $N", a); return a }`),
 		c20Go("i32", func() interface{} { return int32(2) }),
 		c20Go("f32", func() interface{} { return float32(1.5) }),
 		c20Go("u8", func() interface{} { return uint8(3) }),
@@ -432,12 +448,12 @@ func c20MakeVals() []c20Val {
 	// Go functions need the state for their log
 	vs = append(vs,
 		c20Val{kind: "gofunc", mk: func(st *c20State, name string) {
-			f := func(x int64) int64 { st.addLog(fmt.Sprintf("gofunc(%d)", x)); return x * 10 }
+			f := func(x int64) int64 { st.addLog(fmt.Sprintf("gofunc %s(%d)", name, x)); return x * 10 }
 			st.env.Define(name, f)
 			st.base[name] = f
 		}},
 		c20Val{kind: "gofuncv", mk: func(st *c20State, name string) {
-			f := func(xs ...interface{}) int64 { st.addLog("gofuncv" + ank.Render(xs)); return int64(len(xs)) }
+			f := func(xs ...interface{}) int64 { st.addLog("gofuncv " + name + ank.Render(xs)); return int64(len(xs)) }
 			st.env.Define(name, f)
 			st.base[name] = f
 		}},
@@ -515,7 +531,8 @@ func c20AllAtoms() []c20Atom {
 			apply: expr(0, true, func(e string) string { return "[]int64{" + e + "}[0]" })},
 		{name: "paren", apply: func(h c20Hole, n string) c20Hole {
 			// `a, b = (m[k])` is the comma-ok statement as well: the parser looks through parentheses
-			return c20Hole{pre: h.pre, expr: "(" + h.expr + ")", itemSyntax: h.itemSyntax, boxed: h.boxed}
+			// a parenthesised place is a place (Go: (a) = 5); not generated while c20PendingFix_parenTarget
+			return c20Hole{pre: h.pre, expr: "(" + h.expr + ")", itemSyntax: h.itemSyntax, boxed: h.boxed, assignable: h.assignable && !c20PendingFix_parenTarget}
 		}},
 		{name: "ternary", apply: expr(-1, false, func(e string) string { return "(true ? " + e + " : 0)" })},
 		{name: "coalesce", nonNilOnly: true, apply: expr(-1, false, func(e string) string { return "(" + e + " ?? 0)" })},
@@ -617,6 +634,23 @@ const (
 	c20PendingFix_nonEmptyIfaceBox = false
 	// group 7: the write-back after f(&name) is decided by the syntax of the argument
 	c20PendingFix_addrWriteback = false
+
+	// round 4 (reproducers, code at fault, suggested fixes: /tmp/strengthen/C20-r4-genuine.md)
+	// r4-1: the subject of for-in read from an addressable typed slot (field typed []T, element of a
+	// [][]T) is not detached: the loop follows stores the body makes into the slot
+	c20PendingFix_liveForInSubject = false
+	// r4-2: the callee of `defer` (and of a call / `go` that takes the reflect path: Go functions,
+	// variadic script functions) read from an addressable typed func slot is not detached: the
+	// function stored there when the call is finally made is the one called
+	c20PendingFix_liveDeferCallee = false
+	// r4-3: the result list of a script callback with several Go results is not unboxed when it is
+	// still carried as interface{} (return id([1, 2]))
+	c20PendingFix_callbackResultBox = false
+	// r4-4: the value of `place op= e` / `place++` used as an expression is the map KEY for a map
+	// entry, the whole MAP / MODULE for a member, the new value for a variable / element / field
+	c20PendingFix_storeExprValue = false
+	// r4-5: a parenthesised place is not accepted as an assignment target ((a) = 5, (a)++, (a)[len] = v)
+	c20PendingFix_parenTarget = false
 )
 
 // ---------------------------------------------------------------------------
@@ -636,6 +670,8 @@ type c20Tmpl struct {
 	async              bool            // the effect arrives from another goroutine
 	nameOnly           bool            // only holes that are a plain variable name (possibly parenthesised)
 	typeSens           bool            // sensitive to the dynamic type / method set: instantiated in phase typed
+	valueOfStore       bool            // the value of a storing expression is compared: like effectOnly for the typed-place rules
+	twice              bool            // the hole is evaluated again after the operation: not with a hole whose evaluation consumes something
 	kinds              map[string]bool // nil: every operand kind; else the kinds the position is about plus a few controls
 	skip               map[string]bool
 }
@@ -911,6 +947,75 @@ func c20MakeTmpls() []c20Tmpl {
 	add(c20Tmpl{id: "addr-of-name", src: "p = &$X\n*p = $X + $X\n[$X, *p]", nameOnly: true})
 	add(c20Tmpl{id: "addr-writeback", src: "gset(&$X)\n$X", nameOnly: true})
 
+	// an argument is a VALUE: what a script callee does to a field / element of its PARAMETER (a struct
+	// or array is copied when it is passed, a pointer / map / slice is shared) shows in the caller's
+	// operand in the same way whatever expression the argument is - a plain name, the name in
+	// parentheses, an element, a call result - and whatever the call path (1..4 parameters, 5 and more,
+	// a variadic function, a spread list, a function value given by an expression, defer, go).
+	// Whether the callee's store SUCCEEDS depends on the addressability of its parameter's cell
+	// (Go's own distinction, see the exclusions above): it is caught inside the callee and not compared;
+	// compared is the operand read again by the caller after the call.
+	const mutAll = "try { p.A = 9 } catch e { }\ntry { p[0] = 9 } catch e { }\ntry { p.Inc() } catch e { }"
+	// every operand kind for the one-parameter form; the other call paths with the kinds that are
+	// copied when passed (struct, array), kinds that are shared, and a few controls
+	paramKinds := skip(strings.Fields("struct array stringer pstruct list elist map tslice tmap ptrint errp int str nil ncolor")...)
+	P := func(id, pre, src string) {
+		t := c20Tmpl{id: id, pre: pre, src: src, twice: true}
+		if id != "param-mut-1" {
+			t.kinds = paramKinds
+		}
+		add(t)
+	}
+	for _, b := range []struct{ id, body string }{
+		{"param-mut", mutAll},
+		{"param-store-field", "try { p.A = 9 } catch e { }"},
+		{"param-store-elem", "try { p[0] = 9 } catch e { }"},
+		{"param-store-ifield", "try { p.I = \"i\" } catch e { }"},
+		{"param-opassign-field", "try { p.A += 4 } catch e { }"},
+		{"param-inc-elem", "try { p[0]++ } catch e { }"},
+		{"param-method-ptr-recv", "try { p.Inc() } catch e { }"},
+	} {
+		P(b.id+"-1", "fm = func(p){\n"+b.body+"\nreturn 0\n}", "fm($X)\n$X")
+	}
+	P("param-mut-1of2", "fm = func(p, n){\n"+mutAll+"\nreturn n\n}", "fm($X, 0)\n$X")
+	P("param-mut-2of2", "fm = func(n, p){\n"+mutAll+"\nreturn n\n}", "fm(0, $X)\n$X")
+	P("param-mut-2of2-names", "fm = func(n, p){\n"+mutAll+"\nreturn n\n}", "n0 = 0\nfm(n0, $X)\n$X")
+	P("param-mut-3of3", "fm = func(a, b, p){\n"+mutAll+"\nreturn a\n}", "fm(0, 0, $X)\n$X")
+	P("param-mut-4of4", "fm = func(a, b, c, p){\n"+mutAll+"\nreturn a\n}", "fm(0, 0, 0, $X)\n$X")
+	P("param-mut-5of5", "fm = func(a, b, c, d, p){\n"+mutAll+"\nreturn a\n}", "fm(0, 0, 0, 0, $X)\n$X")
+	P("param-mut-both", "fm = func(p, q){\n"+mutAll+"\nreturn 0\n}", "fm($X, $X)\n$X")
+	P("param-mut-variadic-fn", "fm = func(p, rest...){\n"+mutAll+"\nreturn 0\n}", "fm($X, 0)\n$X")
+	P("param-mut-variadic-rest", "fm = func(rest...){\np = rest[0]\n"+mutAll+"\ntry { rest[0].A = 9 } catch e { }\nreturn 0\n}", "fm($X)\n$X")
+	P("param-mut-spread", "fm = func(p){\n"+mutAll+"\nreturn 0\n}", "fm([$X]...)\n$X")
+	P("param-mut-anon-elem", "fl = [func(p){\n"+mutAll+"\nreturn 0\n}]", "fl[0]($X)\n$X")
+	P("param-mut-anon-member", "fo = {\"f\": func(p){\n"+mutAll+"\nreturn 0\n}}", "fo.f($X)\n$X")
+	P("param-mut-anon-literal", "", "func(p){\n"+mutAll+"\nreturn 0\n}($X)\n$X")
+	P("param-mut-module", "module MF { func fm(p){\n"+mutAll+"\nreturn 0\n} }", "MF.fm($X)\n$X")
+	P("param-mut-named-func", "func fm(p){\n"+mutAll+"\nreturn 0\n}", "fm($X)\n$X")
+	P("param-mut-nested", "fm = func(p){\n"+mutAll+"\nreturn 0\n}\nfo = func(q){ return fm(q) }", "fo($X)\n$X")
+	P("param-mut-defer", "fm = func(p){\n"+mutAll+"\nreturn 0\n}", "func(){\ndefer fm($X)\n}()\n$X")
+	P("param-mut-go", "dn = make(chan interface, 1)\nfm = func(p){\n"+mutAll+"\ndn <- 1\n}", "go fm($X)\n<-dn\n$X")
+	P("param-mut-host-callback", "fm = func(p){\n"+mutAll+"\nreturn 0\n}", "gcb1(fm, $X)\n$X")
+
+	// the subject of for-in and the callee of defer are operands like any other: read once, as VALUES
+	// (the loop / the deferred call does not follow a store the body makes into the place afterwards)
+	add(c20Tmpl{id: "live-forin-grow", src: "n = 0\nfor x in $X {\nn++\nif n < 5 { $X += $X }\n}\nn", needAssignable: true, skip: skip("chan")})
+	add(c20Tmpl{id: "live-forin-rotate", src: "acc = []\nfor x in $X {\nacc += [x]\n$X = $X[1:] + $X[:1]\n}\nacc", needAssignable: true, skip: skip("chan")})
+	add(c20Tmpl{id: "latebind-defer-callee", src: "func(){\ndefer $X(3)\n$X = $Y\n}()", ykind: "same", needAssignable: true,
+		kinds: skip("sfunc", "sfuncv", "gofunc", "gofuncv", "int", "nil", "list")})
+	// ... and so is the callee of a call: read before the arguments are evaluated
+	add(c20Tmpl{id: "latebind-call-callee", src: "$X(func(){\n$X = $Y\nreturn 3\n}())", ykind: "same", needAssignable: true,
+		kinds: skip("sfunc", "sfuncv", "gofunc", "gofuncv", "int", "nil", "list")})
+	// what a script callback returns is an operand of the conversion to the Go results
+	T("return-callback-1", "gcbr1(func(){ return $X })")
+	T("return-callback-3", "gcbr3(func(){ return $X })")
+	T("return-callback-i2", "gcbri2(func(){ return $X })")
+	// the VALUE of `place op= e` / `place++` used as an expression: the value that was stored, whatever
+	// kind of place it is (variable, element, map entry, member, field, module member)
+	add(c20Tmpl{id: "add-assign-value", src: "y = ($X += 2)\ny", needAssignable: true, valueOfStore: true})
+	add(c20Tmpl{id: "inc-value", src: "y = $X++\ny", needAssignable: true, valueOfStore: true})
+	add(c20Tmpl{id: "add-assign-str-value", src: "y = ($X += \"s\")\ny", needAssignable: true, valueOfStore: true})
+
 	// the classes awaiting a repair of /repo (see the c20PendingFix constants)
 	pending := map[string]bool{}
 	pendingKind := func(kind string, ids ...string) {
@@ -938,6 +1043,18 @@ func c20MakeTmpls() []c20Tmpl {
 	if c20PendingFix_addrWriteback {
 		pending["addr-writeback"] = true
 	}
+	if c20PendingFix_liveForInSubject {
+		pending["live-forin-grow"], pending["live-forin-rotate"] = true, true
+	}
+	if c20PendingFix_liveDeferCallee {
+		pending["latebind-defer-callee"], pending["latebind-call-callee"] = true, true
+	}
+	if c20PendingFix_callbackResultBox {
+		pending["return-callback-3"], pending["return-callback-i2"] = true, true
+	}
+	if c20PendingFix_storeExprValue {
+		pending["add-assign-value"], pending["inc-value"], pending["add-assign-str-value"] = true, true, true
+	}
 	if c20PendingFix_arraySlice {
 		pendingKind("array", "slice-of-*", "slice-store")
 	}
@@ -962,6 +1079,13 @@ func c20MakeTmpls() []c20Tmpl {
 			if ts[i].id == id {
 				ts[i].typeSens = true
 			}
+		}
+	}
+	// ... and the parameter-mutation templates: a name bound from a typed addressable location
+	// holds a struct / array in a cell of its own, which is where a missing copy shows
+	for i := range ts {
+		if strings.HasPrefix(ts[i].id, "param-") {
+			ts[i].typeSens = true
 		}
 	}
 	return ts
@@ -992,6 +1116,11 @@ var c20Rebinds = map[string]bool{"str": true, "strnum": true, "elist": true, "ni
 
 var c20TypedAddressable = map[string]bool{"tyelem": true, "tyfield": true, "tyderef": true, "tyelemvar": true}
 
+// atoms that bind the operand (to a name, a parameter, a function result, a module member):
+// a struct / array is copied into an addressable cell of its own there
+var c20BindsInOwnCell = map[string]bool{"letvar": true, "varvar": true, "mletvar": true, "forinvar": true, "scall": true, "sparam": true,
+	"sparam5": true, "retname": true, "closure": true, "modvar": true}
+
 func c20MutatesInPlace(id string) bool {
 	// addr-of-name: `&x` of a struct / array value is a pointer to the value's own cell exactly
 	// when the value sits in addressable storage (the same Go distinction)
@@ -1000,7 +1129,7 @@ func c20MutatesInPlace(id string) bool {
 
 var c20PtrKinds = map[string]bool{"ptrint": true, "pstruct": true, "errp": true, "reader": true}
 var c20IntKinds = map[string]bool{"int": true, "zero": true, "big": true}
-var c20IntKeeping = map[string]bool{"inc": true, "dec": true, "add-assign": true, "sub-assign": true, "mul-assign": true, "or-assign": true, "and-assign": true, "assign": true}
+var c20IntKeeping = map[string]bool{"inc": true, "dec": true, "add-assign": true, "sub-assign": true, "mul-assign": true, "or-assign": true, "and-assign": true, "assign": true, "add-assign-value": true, "inc-value": true}
 
 // operand kinds for which `x += x` yields a value of x's own type
 var c20SelfAddKeepsType = map[string]bool{"int": true, "zero": true, "big": true, "float": true, "str": true, "strnum": true, "list": true, "elist": true, "tslice": true, "tstrs": true}
@@ -1253,6 +1382,17 @@ var c20FixedCases = []c20Fixed{
 	{"make-len", "ptrint", []string{"gocall"}},
 	{"chan-close", "chan", []string{"gocall"}},
 	{"in-rhs", "tslice", []string{"pfield"}},
+	// a struct / array held in a NAME (bound from a typed slot) passed to a callee that stores into its parameter
+	{"param-store-field-1", "struct", []string{"tyelem", "letvar"}},
+	{"param-store-elem-1", "array", []string{"tyelem", "letvar"}},
+	{"param-mut-2of2", "struct", []string{"tyfield", "varvar"}},
+	{"param-mut-4of4", "array", []string{"tyderef", "letvar"}},
+	{"param-mut-5of5", "struct", []string{"tyelem", "letvar"}},
+	{"param-mut-anon-elem", "struct", []string{"tyelem", "letvar"}},
+	{"param-mut-defer", "array", []string{"tyelem", "letvar"}},
+	{"param-mut-go", "struct", []string{"tyelem", "letvar"}},
+	{"param-mut-1", "struct", []string{"tyelem", "letvar", "paren"}},
+	{"param-mut-1", "struct", []string{"tyelemvar"}},
 }
 
 type c20Engine struct {
@@ -1272,6 +1412,18 @@ func (g *c20Engine) valByKind(k string) *c20Val {
 
 func (g *c20Engine) chainOK(t *c20Tmpl, val *c20Val, chain []int) (bool, string) {
 	last := g.atoms[chain[len(chain)-1]]
+	if !c20PendingFix_parenTarget {
+		// a parenthesised place is the place: what decides is the atom inside the parentheses
+		i := len(chain) - 1
+		for i >= 0 && g.atoms[chain[i]].name == "paren" {
+			i--
+		}
+		if i < 0 {
+			last = c20Atom{name: "var", assignable: true, isName: true}
+		} else {
+			last = g.atoms[chain[i]]
+		}
+	}
 	for _, ai := range chain {
 		a := g.atoms[ai]
 		if a.nonNilOnly && val.isNil {
@@ -1282,6 +1434,14 @@ func (g *c20Engine) chainOK(t *c20Tmpl, val *c20Val, chain []int) (bool, string)
 		}
 		if a.only != nil && (!a.only[val.kind] || (t.ykind != "" && t.ykind != "same" && !a.only[t.ykind])) {
 			return false, "typed-container-of-other-type"
+		}
+	}
+	if t.twice {
+		for _, ai := range chain {
+			if g.atoms[ai].name == "chanrecv" {
+				// the template reads the hole again after the operation; a second receive would block
+				return false, "hole-read-twice-consumes-channel-item"
+			}
 		}
 	}
 	for _, ai := range chain {
@@ -1304,6 +1464,13 @@ func (g *c20Engine) chainOK(t *c20Tmpl, val *c20Val, chain []int) (bool, string)
 	}
 	if (val.kind == "struct" || val.kind == "array" || val.kind == "stringer" || (val.kind == "ncolor" && t.id != "method-ptr-recv" && t.id != "addr-of-name")) && c20MutatesInPlace(t.id) {
 		for i, ai := range chain {
+			if c20BindsInOwnCell[g.atoms[ai].name] && (val.kind == "struct" || val.kind == "array" || val.kind == "stringer") {
+				// since /repo 24b1b84 EVERY binding of a struct / array (name, parameter, function
+				// result, module member) is a copy in an addressable cell of its own, whereas the
+				// reference operand handed in by the host (env.Define) is not addressable: the same
+				// distinction as for names bound from typed slots below, not compared
+				return false, "in-place-mutation-of-value-in-addressable-storage"
+			}
 			if !c20TypedAddressable[g.atoms[ai].name] {
 				continue
 			}
@@ -1330,7 +1497,7 @@ func (g *c20Engine) chainOK(t *c20Tmpl, val *c20Val, chain []int) (bool, string)
 	if last.typedPlace && last.only == nil {
 		// the hole is a typed place: a store converts to the place's type (the typed container's
 		// rule, C10), so only stores that keep the operand's type are comparable with a variable
-		if t.effectOnly && !(c20IntKinds[val.kind] && c20IntKeeping[t.id]) && !(t.id == "add-assign-str" && (val.kind == "str" || val.kind == "strnum")) {
+		if (t.effectOnly || t.valueOfStore) && !(c20IntKinds[val.kind] && c20IntKeeping[t.id]) && !((t.id == "add-assign-str" || t.id == "add-assign-str-value") && (val.kind == "str" || val.kind == "strnum")) {
 			return false, "non-type-keeping-store-into-typed-place"
 		}
 		if strings.HasPrefix(t.id, "live-") && !c20SelfAddKeepsType[val.kind] {
@@ -1340,7 +1507,7 @@ func (g *c20Engine) chainOK(t *c20Tmpl, val *c20Val, chain []int) (bool, string)
 	if last.only != nil && last.assignable {
 		// the hole is a typed string place: what a store of a non-string does there is the
 		// typed container's conversion rule (C10), not a matter of the operand's provenance
-		if t.effectOnly && t.id != "add-assign-str" {
+		if (t.effectOnly || t.valueOfStore) && t.id != "add-assign-str" && t.id != "add-assign-str-value" {
 			return false, "non-string-store-into-typed-place"
 		}
 	}
@@ -1511,12 +1678,17 @@ func init() {
 				Rule: fmt.Sprintf("metamorphic: %d operation templates x %d operand values x provenance chains over %d atoms (+%d binding hops used by phase typed only); reference = plain variable. "+
 					"operand kinds include named basic types with methods, error / Stringer / io.Reader implementations and a Go array; atoms include typed addressable Go locations built around ANY operand ([]T element, *struct{F T} field, *T target, map[string]T entry); templates include Go parameters, typed literals and typed places of non-empty interface types and of named types, method calls, typed map lookups, and read-then-store-in-one-expression (live-*) cases; type-specific positions are instantiated with the kinds they are about plus controls. "+
 					"phase fixed: the difference classes seen on the pinned tree; phase typed: the type-/identity-revealing templates x every value x (typed location x binding hop: =, var, multi-assignment, parameter, 5th parameter, return, returned name, closure, for-in variable; Go result / interface{} field x var, parameter, 5th parameter, closure) (complete); phase pairs: arguments bound by spreading a list (f(l...), f(0, l...), under defer and go, into fixed-arity script functions) against the same arguments written out (f(l[0], l[1])), with callees that overwrite the list, keep a closure, assign their parameter or apply kind-sensitive operators (complete list); phase len1: EVERY template x value x atom (complete); "+
+					"templates param-*: a script callee stores into a field / element of its parameter (1..4 parameters, 5 parameters, variadic function, spread, function value given by an expression, module function, nested call, defer, go, host callback) and the caller reads the argument expression again; "+
+					"phases concur / concur-race: one call site whose callee is given by an expression (list element, map entry, member, struct field, typed slice element, pointer target, call result, Go result, parentheses, ternary, ??, two hops, module member) evaluated N times by each of 3-5 overlapping evaluations (goroutines started by `go` in one script; one parsed tree run on several VMs) whose callees are different closures obtained through different provenances - every call must return its own callee's result, as the call by name does (concur-race: same programs, fewer rounds, -race build); "+
 					"phase deep: quick = 8 PRNG chains of length 2..3 per (template,value), thorough = every chain of length 2 plus 80 PRNG chains of length 3. "+
 					"Each instantiation runs in a fresh environment with fresh operand objects. An evaluation is non-trivial when the reference or the variant succeeded; distinct = distinct (template, value, source).", nT, nV, nA, len(g.atoms)-nA),
 				Assumptions: []string{
 					"error texts are not compared (statement: same error-or-success), except for throw",
 					"pointers/channels/functions are compared by identity with the operand object and by their effects, never by printed address",
 					"excluded: `a, b = <index expr>` (also parenthesised), &$X of anything but a name, the value of $X++ / $X op= e, string/appending stores and struct-value field stores through non-assignable holes, in-place mutation of struct/array values held in addressable typed locations, non-type-keeping stores into typed places, the for-in loop variable of a pointer operand",
+					"whether a store into a field / element of a struct / array PARAMETER succeeds inside the callee depends on the addressability of the parameter's cell (not compared: caught inside the callee); compared is the caller's operand after the call",
+					"phases concur / concur-race decide nothing on timing: a wrong callee, an error or a race report is a fact of the run; overlapping evaluations that happen not to collide are silent",
+					"round-4 classes not generated while their c20PendingFix_* constant is true: live for-in subject, live defer / call callee read from a typed func slot, boxed result list of a multi-result callback, value of `place op= e` / `place++` for map / member places, parenthesised assignment targets",
 					"classes known to violate the statement on the unchanged tree are not generated while their c20PendingFix_* constant is true: addressable binding (&name, in-place mutation of a name bound from a typed location), live left operand / Go-call argument, implicit function result, slicing a non-addressable array, switch/in with a boxed pointer, values boxed in non-empty interface types, syntactic &name write-back",
 				},
 				Phases: []fw.Phase{
@@ -1525,11 +1697,17 @@ func init() {
 					{Name: "typed", Cases: len(sensT) * nV, Chunk: 160, Exhaust: true, TimeoutS: 900},
 					{Name: "pairs", Cases: len(c20Pairs()), Chunk: 64, Exhaust: true, TimeoutS: 600},
 					{Name: "deep", Cases: nT * nV, Chunk: map[string]int{"quick": 160, "thorough": 40}[tier], TimeoutS: 1800},
+					{Name: "concur", Cases: c20ConcurCases(), Chunk: 2, TimeoutS: 900},
+					{Name: "concur-race", Race: true, Cases: c20ConcurCases(), Chunk: c20ConcurCases(), TimeoutS: 900},
 				},
 			}
 		},
 		Run: func(c *wk.Case) {
 			switch c.Phase {
+			case "concur":
+				c20RunConcur(c, map[string]int{"quick": 30000, "thorough": 300000}[c.Tier])
+			case "concur-race":
+				c20RunConcur(c, map[string]int{"quick": 300, "thorough": 3000}[c.Tier])
 			case "pairs":
 				c20RunPair(c, c20Pairs()[c.Index])
 			case "fixed":
